@@ -20,6 +20,7 @@
 #include <gmssl/x509.h>
 #include <gmssl/x509_ext.h>
 #include <gmssl/error.h>
+#include <gmssl/verif.h>
 
 
 
@@ -2841,7 +2842,17 @@ int x509_exts_check(const uint8_t *exts, size_t extslen, int cert_type,
 
 	*path_len_constraint = -1;
 
-	while (extslen) {
+	while (extslen)
+	VERIF_LOOP_ASSIGNS(exts, extslen, oid, VERIF_OBJ_WHOLE(nodes), nodes_cnt, critical, val, vlen, ca, path_len, key_usage,
+		VERIF_OBJ_WHOLE(ext_key_usages), ext_key_usages_cnt, *path_len_constraint,
+		verif_x_bc_calls, verif_x_bc_last_ca, verif_x_bc_last_ret, verif_x_unknown_critical)
+	VERIF_LOOP_INVARIANT(extslen <= VERIF_LOOP_ENTRY(extslen))
+	VERIF_LOOP_INVARIANT(exts == VERIF_LOOP_ENTRY(exts) + (VERIF_LOOP_ENTRY(extslen) - extslen))
+	VERIF_LOOP_INVARIANT(*path_len_constraint == path_len && path_len >= -1)
+	VERIF_LOOP_INVARIANT(verif_x_unknown_critical == VERIF_LOOP_ENTRY(verif_x_unknown_critical))
+	VERIF_LOOP_INVARIANT(ca == -1 || (verif_x_bc_calls != VERIF_LOOP_ENTRY(verif_x_bc_calls) && verif_x_bc_last_ca == ca && verif_x_bc_last_ret == 1))
+	VERIF_LOOP_DECREASES(extslen)
+	{
 		if (x509_ext_from_der(&oid, nodes, &nodes_cnt, &critical, &val, &vlen, &exts, &extslen) != 1) {
 			error_print();
 			return -1;
